@@ -30,3 +30,16 @@ def gated_task(i, tag, gate_dir, poll=0.005, max_wait=60.0):
             break
         time.sleep(poll)
     return (tag, i)
+
+
+WORKER_TAG = [None]
+
+
+def init_worker(tag):
+    """pool initializer: marks the worker process"""
+    WORKER_TAG[0] = tag
+
+
+def tagged_task(i, tag, fail, dur=0.0, logfile=None):
+    r = task(i, tag, fail, dur, logfile)
+    return r + (WORKER_TAG[0],)
